@@ -9,6 +9,7 @@ package nebula
 
 import (
 	"bytes"
+	"encoding/binary"
 	"log/slog"
 	"net/netip"
 	"regexp"
@@ -1503,6 +1504,180 @@ func specRelayByIdx(rs *RelayState, idx uint32) *Relay { return nil }
 //@   old idx0 = rxc.h.RemoteIndex
 //@   callrequires (*Interface).SendVia specRelayByIdx(&hostinfo.relayState, idx0) != nil && specRelayByIdx(&hostinfo.relayState, idx0).Type == ForwardingType && arg1 == specRelayVia(f.hostMap, hostinfo.vpnAddrs, specRelayByIdx(&hostinfo.relayState, idx0).PeerAddr) && arg2 == specRelayFor(f.hostMap, hostinfo.vpnAddrs, specRelayByIdx(&hostinfo.relayState, idx0).PeerAddr) && arg2.State == Established && arg2.Type == ForwardingType
 //@   ensures[once] forwarded <= 1
+
+// =====================================================================
+// C35 — lighthouse information is accepted only from authorized senders
+// =====================================================================
+//
+// fromVpnAddrs are the certified overlay addresses of the tunnel a lighthouse
+// message arrived on (readOutsidePackets passes hostinfo.vpnAddrs after the
+// packet was authenticated, C14). `recorded` counts writes to a peer's remote
+// list, `answered` replies sent, `punched` scheduled punches.
+//   host update : recorded only by a lighthouse, only when the address named in
+//                 the update (if any) is one of the sender's own, only into the
+//                 remote list of exactly the sender's addresses, owner and
+//                 subject both the sender's primary address;
+//   query       : answered only by a lighthouse;
+//   query reply : recorded only when the sender is one of the configured
+//                 lighthouses, with the sender as owner;
+//   punch notice: punches scheduled only when the sender is one of the
+//                 configured lighthouses and only to addresses the remote allow
+//                 list allows for the named peer.
+
+//@ func specIsLighthouse
+//@   opaque
+func specIsLighthouse(lh *LightHouse, addrs []netip.Addr) bool { return false }
+
+//@ func specAddrIn
+//@   opaque
+func specAddrIn(s []netip.Addr, a netip.Addr) bool { return false }
+
+//@ func (*LightHouse).IsAnyLighthouseAddr
+//@   trusted membership of any of the addresses in the configured lighthouse list (a loop over slices.Contains); reads only
+//@   ensures result == specIsLighthouse(lh, vpnAddrs)
+//@   assigns nothing
+//@ func slices.Contains[[]net/netip.Addr,net/netip.Addr]
+//@   trusted membership test of the standard library, a deterministic function of list and value
+//@   ensures result == specAddrIn(s, v)
+//@   assigns nothing
+//@ func (*RemoteList).unlockedSetV4
+//@   trusted replaces the IPv4 addresses this owner reported for the peer (filtered by check, capped)
+//@   effect recorded
+//@   assigns nothing
+//@ func (*RemoteList).unlockedSetV6
+//@   trusted replaces the IPv6 addresses this owner reported for the peer (filtered by check, capped)
+//@   effect recorded
+//@   assigns nothing
+//@ func (*RemoteList).unlockedSetRelay
+//@   trusted replaces the relays this owner reported for the peer
+//@   effect recorded
+//@   assigns nothing
+//@ func (*LightHouse).unlockedGetRemoteList
+//@   trusted finds or creates the remote list shared by these overlay addresses
+//@   ensures result != nil
+//@   assigns nothing
+//@ func (*LightHouse).queryAndPrepMessage
+//@   trusted looks the queried address up in the lighthouse cache and lets the callback build the reply
+//@   effect answered
+//@   assigns nothing
+//@ func (EncWriter).SendMessageToVpnAddr
+//@   trusted encrypts and sends a message on the tunnel to that overlay address
+//@   effect answered
+//@   assigns nothing
+//@ func (*Punchy).Schedule
+//@   trusted schedules a hole-punch packet to the address
+//@   effect punched
+//@   assigns nothing
+//@ func (*Punchy).ScheduleRespond
+//@   trusted schedules a test packet towards the peer (no-op unless punchy.respond)
+//@   effect punched
+//@   assigns nothing
+//@ func (*LightHouse).metricTx
+//@   trusted metrics counter
+//@   assigns nothing
+//@ func (*LightHouseHandler).resetMeta
+//@   trusted resets and returns the handler's reusable message object
+//@   ensures result != nil && result.Details != nil
+//@   assigns nothing
+//@ func (*NebulaMetaDetails).GetRelays
+//@   trusted decodes the relay list of the message; reads only
+//@   assigns nothing
+//@ func (*NebulaMetaDetails).GetVpnAddrAndVersion
+//@   props C35 C36
+//@   requires d != nil
+//@   ensures[addr] result0 == specDetailsAddr(d)
+//@   ensures[err]  (result2 == nil) == (d.OldVpnAddr != 0 || d.VpnAddr != nil)
+//@   assigns nothing
+//@ func (*NebulaMeta).MarshalTo
+//@   trusted protobuf encoding into the handler's buffer (generated code: writes into dAtA[:Size()] and returns the bytes used)
+//@   ensures 0 <= result0 && result0 <= cap(dAtA)
+//@   assigns nothing
+//@ func protoAddrToNetAddr
+//@   inline
+
+//@ func (*NebulaMeta).Unmarshal
+//@   trusted protobuf decoding of the lighthouse message into the handler's reusable message object (generated code); the message's type and details pointer are whatever the bytes say (the contents of the details are not constrained anywhere)
+//@   assigns m.Type, m.Details
+//@ func (*LightHouse).metricRx
+//@   trusted metrics counter
+//@   assigns nothing
+// The dispatcher hands every handler exactly the sender addresses it was given
+// (the authenticated tunnel's certified addresses), and a message without
+// details reaches no handler.
+//@ func (*LightHouseHandler).HandleRequest impl
+//@   props C35
+//@   closed
+//@   ghost handled int = 0
+//@   requires lhh != nil && lhh.lh != nil && lhh.l != nil && lhh.lh.punchy != nil && len(fromVpnAddrs) >= 1 && w != nil
+//@   callrequires handleHostQuery same(arg2, fromVpnAddrs) && arg1 != nil && arg1.Details != nil
+//@   callrequires handleHostQueryReply same(arg2, fromVpnAddrs) && arg1 != nil && arg1.Details != nil
+//@   callrequires handleHostUpdateNotification same(arg2, fromVpnAddrs) && arg1 != nil && arg1.Details != nil
+//@   callrequires handleHostPunchNotification same(arg2, fromVpnAddrs) && arg1 != nil && arg1.Details != nil
+//@   ensures[one] handled <= 1
+
+//@ func (*LightHouseHandler).handleHostUpdateNotification
+//@   props C35 C36
+//@   effect handled
+//@   closed
+//@   ghost recorded int = 0
+//@   ghost answered int = 0
+//@   requires lhh != nil && lhh.lh != nil && lhh.l != nil && n != nil && n.Details != nil && len(fromVpnAddrs) >= 1 && w != nil
+//@   callrequires unlockedGetRemoteList same(arg1, fromVpnAddrs)
+//@   callrequires unlockedSetV4 arg1 == fromVpnAddrs[0] && arg2 == fromVpnAddrs[0]
+//@   callrequires unlockedSetV6 arg1 == fromVpnAddrs[0] && arg2 == fromVpnAddrs[0]
+//@   callrequires unlockedSetRelay arg1 == fromVpnAddrs[0]
+//@   callrequires SendMessageToVpnAddr arg3 == fromVpnAddrs[0]
+//@   ensures[lighthouse] implies(!lhh.lh.amLighthouse, recorded == 0 && answered == 0)
+//@   ensures[own]        implies(recorded >= 1 && old(specDetailsAddr(n.Details)).IsValid(), specAddrIn(fromVpnAddrs, old(specDetailsAddr(n.Details))))
+//@   ensures[ack]        answered <= 1 && implies(answered == 1, recorded == 3)
+
+// The overlay address a host update names: the v1 field if set, else the v2
+// field if present, else none (the zero Addr).
+func specDetailsAddr(d *NebulaMetaDetails) netip.Addr {
+	if d.OldVpnAddr != 0 {
+		b := [4]byte{}
+		binary.BigEndian.PutUint32(b[:], d.OldVpnAddr)
+		return netip.AddrFrom4(b)
+	}
+	if d.VpnAddr != nil {
+		return protoAddrToNetAddr(d.VpnAddr)
+	}
+	return netip.Addr{}
+}
+
+//@ func (*LightHouseHandler).sendHostPunchNotification
+//@   trusted asks the queried host to punch towards the asker (a lighthouse-only path, reached from handleHostQuery)
+//@   effect notified
+//@   assigns nothing
+//@ func (*LightHouseHandler).handleHostQuery
+//@   props C35
+//@   closed
+//@   ghost answered int = 0
+//@   ghost notified int = 0
+//@   requires lhh != nil && lhh.lh != nil && lhh.l != nil && n != nil && n.Details != nil && len(fromVpnAddrs) >= 1 && w != nil
+//@   callrequires SendMessageToVpnAddr arg3 == fromVpnAddrs[0]
+//@   callassumes queryAndPrepMessage 0 <= ret1 && ret1 <= cap(lhh.pb)
+//@   ensures[lighthouse] implies(!lhh.lh.amLighthouse, answered == 0 && notified == 0)
+
+//@ func (*LightHouseHandler).handleHostQueryReply
+//@   props C35 C36
+//@   closed
+//@   ghost recorded int = 0
+//@   requires lhh != nil && lhh.lh != nil && lhh.l != nil && n != nil && n.Details != nil && len(fromVpnAddrs) >= 1
+//@   callrequires unlockedGetRemoteList len(arg1) == 1 && arg1[0] == specDetailsAddr(n.Details)
+//@   callrequires unlockedSetV4 arg1 == fromVpnAddrs[0] && arg2 == specDetailsAddr(n.Details)
+//@   callrequires unlockedSetV6 arg1 == fromVpnAddrs[0] && arg2 == specDetailsAddr(n.Details)
+//@   callrequires unlockedSetRelay arg1 == fromVpnAddrs[0]
+//@   ensures[authorized] implies(recorded >= 1, specIsLighthouse(lhh.lh, fromVpnAddrs))
+
+//@ func (*LightHouseHandler).handleHostPunchNotification
+//@   props C35
+//@   closed
+//@   ghost punched int = 0
+//@   requires lhh != nil && lhh.lh != nil && lhh.l != nil && lhh.lh.punchy != nil && n != nil && n.Details != nil
+//@   ensures[authorized] implies(punched >= 1, specIsLighthouse(lhh.lh, fromVpnAddrs))
+//@   loop 1 invariant implies(punched >= 1, specIsLighthouse(lhh.lh, fromVpnAddrs)) && remoteAllowList != nil && specRemoteAllowOK(remoteAllowList)
+//@   loop 2 invariant implies(punched >= 1, specIsLighthouse(lhh.lh, fromVpnAddrs)) && remoteAllowList != nil && specRemoteAllowOK(remoteAllowList)
 
 // =====================================================================
 // C36 — unusable underlay addresses are never used (the admission filters)
